@@ -13,6 +13,9 @@ func cloneCase(c *Case) *Case {
 }
 
 func (engine) Shrink(ci any, stillFails func(any) bool) any {
+	if _, conc := concFailed[concKey(ci.(*Case))]; conc {
+		return ci // seen by the concurrent oracle: depends on the interleaving, not minimised (conc.go)
+	}
 	cur := cloneCase(ci.(*Case))
 	try := func(mut func(c *Case) bool) bool {
 		cand := cloneCase(cur)
